@@ -372,7 +372,7 @@ def search_semantics(facts, res, fn, searches, idx, grp):
                           "the mapper skips to another group under `%s`; for the group interval %s and the found source index %d this is %s, whereas the interaction lies %s the group" % (facts.ntext(cond)[:80], wrong[0], wrong[1], wrong[2], "inside" if wrong[0][0] <= wrong[1] <= wrong[0][1] else "outside"))
 
 
-def decomposition(facts, res):
+def decomposition(facts, res, tier="quick"):
     """C01.8 (see rules/decomp.py)"""
     import decomp
     R = "C01.8.level-decomposition"
@@ -395,7 +395,7 @@ def decomposition(facts, res):
     if len(us) != 1:
         raise AnalysisBroken("default upper working level of the single-tree executors not identified (%s)" % sorted(us))
     U = next(iter(us))
-    n = decomp.check(facts, res, R, "TbfMortonSpaceIndex", U)
+    n = decomp.check(facts, res, R, "TbfMortonSpaceIndex", U, thorough=(tier == "thorough"))
     res.floor(R, n, 1000, "ordered pairs of leaf cells")
     res.instance(R, "model size", "rules/decomp.py", "%d ordered pairs of leaf cells examined" % n)
 
@@ -542,7 +542,7 @@ def run(res, tier):
     res.rule("C01.7 mapper exits: the path condition of every return taken before the list is walked implies that no listed source index lies inside any group's index interval (implication decided over all models with indices 0..4, <=2 interactions, <=2 sorted disjoint groups); the single-tree overloads forward (list, groups, working group, same groups, callback) unconditionally")
     mapper_exits(facts, res)
     res.rule("C01.8 level decomposition: with the window clamps, too-close threshold, empty-below level, self exclusion and upper-half filter read from the per-cell list builders and the default upper working level of the executors, every ordered pair of different leaf cells is covered exactly once (near field, or a transfer at exactly one level) in the model built from those constants: all pairs, Dim 1 heights 2..7 and Dim 2 heights 2..5; adjacent pairs are listed by exactly one side of the half list")
-    decomposition(facts, res)
+    decomposition(facts, res, tier)
     try:
         n5 = routing(facts, res, SINGLE_TREE["core"])
     except AnalysisBroken:
